@@ -9,7 +9,7 @@ from treeops import Real, F_ALL, F_DEFAULT, F_TAG
 from impl import Document, TagNode, TextNode, no_gc, new_tag_node, new_comment_node, new_processing_instruction_node
 
 TEXTS = ["a", "bb", " ", "c d"]
-NEW_TEXTS = ["T", "uu", "w w"]
+NEW_TEXTS = ["T", "uu", "w w", " x  y "]
 
 
 def arrangement(rng, depth, pfx=False):
@@ -24,7 +24,7 @@ def arrangement(rng, depth, pfx=False):
             r = rng.random()
             if pfx and r < 0.3:
                 out.append(rng.choice(['<p:b k="v"/>', '<p:b k="v"><i k="w"/>t</p:b>', '<p:b><i k="w">t</i><!--c-->u</p:b>',
-                                       '<p:b p:k="v"><p:c/><i/></p:b>']))
+                                       '<p:b p:k="v"><p:c/><i/></p:b>', '<p:b k="v" p:k="w"/>', '<p:b k="v"><p:c k="1" p:k="2"/></p:b>']))
             elif r < 0.3:
                 out.append(rng.choice(["<x/>", '<x k="v"/>', '<z p:k="w" xmlns:p="u"/>']))
             elif r < 0.6 and depth > 0:
@@ -45,9 +45,9 @@ def root_siblings(rng, tagc):
 
 def gen_doc(rng):
     root = rng.choice(["<r>", "<r>", '<r xmlns="d">', '<r xmlns="d" k="v">', '<r xmlns="d" xmlns:p="u">',
-                       '<r xmlns="d" xmlns:p="u" k="v">'])
+                       '<r xmlns="d" xmlns:p="u" k="v">', '<r xmlns:p="u">', '<p:r xmlns:p="u" k="v" p:k="w">'])
     body = arrangement(rng, 1, pfx="xmlns:p" in root)
-    return root_siblings(rng, "pro") + root + body + "</r>" + root_siblings(rng, "epi")
+    return root_siblings(rng, "pro") + root + body + ("</p:r>" if root.startswith("<p:r") else "</r>") + root_siblings(rng, "epi")
 
 
 def gen_pool(rng):
